@@ -91,7 +91,7 @@ fn run_in_child(spec: &Spec) -> common::Report {
                     let tail: String = stderr.lines().rev().take(6).collect::<Vec<_>>().join(" | ");
                     rep.evaluations = 1;
                     rep.violation(common::Violation {
-                        props: vec!["C20"],
+                        props: if spec.engine == "probe" { vec!["C20", "C17", "C18"] } else { vec!["C20"] },
                         sig: "child/aborted".into(),
                         what: format!("the process running {} died ({}) during: {} -- stderr tail: {}", spec.raw, o.status, last, tail),
                         replay: Json::obj().set("engine", "child").set("spec", &spec.raw).set("last_case", last),
